@@ -54,13 +54,24 @@ impl<'tcx> Cx<'tcx> {
     fn span_info(&self, sp: Span) -> (String, usize, String) {
         let sm = self.tcx.sess.source_map();
         let exp = if sp.from_expansion() {
-            let ed = sp.ctxt().outer_expn_data();
-            match ed.kind {
-                rustc_span::ExpnKind::Macro(_, name) => format!("macro:{}", name),
-                rustc_span::ExpnKind::Desugaring(k) => format!("desugar:{:?}", k),
-                rustc_span::ExpnKind::AstPass(k) => format!("astpass:{:?}", k),
-                rustc_span::ExpnKind::Root => "root".to_string(),
+            // innermost first: e.g. "macro:panic<macro:assert<macro:debug_assert"
+            let mut parts: Vec<String> = Vec::new();
+            for ed in sp.macro_backtrace() {
+                match ed.kind {
+                    rustc_span::ExpnKind::Macro(_, name) => parts.push(format!("macro:{}", name)),
+                    rustc_span::ExpnKind::Desugaring(k) => parts.push(format!("desugar:{:?}", k)),
+                    rustc_span::ExpnKind::AstPass(k) => parts.push(format!("astpass:{:?}", k)),
+                    rustc_span::ExpnKind::Root => {}
+                }
             }
+            if parts.is_empty() {
+                let ed = sp.ctxt().outer_expn_data();
+                match ed.kind {
+                    rustc_span::ExpnKind::Desugaring(k) => parts.push(format!("desugar:{:?}", k)),
+                    _ => parts.push("expansion".to_string()),
+                }
+            }
+            parts.join("<")
         } else {
             String::new()
         };
